@@ -5,7 +5,7 @@ import (
 	"math/rand"
 )
 
-// C05: dry run. Same collector driver as C04; DryRun is on in every configuration of the history.
+// C05: dry run. Same collector driver as C04; DryRun starts on or off and is toggled by reloads between operations.
 
 func init() {
 	Register(&Driver{ID: "C05", Gen: func(r *rand.Rand, tier string, i int) any { return c2Gen(r, tier, "c05") },
@@ -18,7 +18,7 @@ func init() {
 						hasDrop = true
 					}
 				}
-				return hasDrop && res.OnTime > 0 && res.Late > 0
+				return hasDrop && res.OnTime > 0 && res.Late > 0 && (in.Cfg.Dry || res.Tags["dryrun-toggled-by-reload"])
 			})
 		}, Shrink: c2Shrink})
 }
